@@ -15,7 +15,7 @@ THEOREMS = ["C06_equ_closed_form", "C06_equ_rotation", "C06_equ_identity", "C06_
             "C06_ecl_isometry", "C06_newcomb_closed_form", "C06_newcomb_rotation", "C06_newcomb_identity",
             "C06_obliquity", "C06_p_motion_closed_form", "C06_motion_in_space_closed_form", "C06_orbital_closed_form", "C06_orbital_zero_branch",
             "C06_equ_there_and_back", "C06_ecl_there_and_back",
-            "C06_newcomb_vs_fk5", "C06_route_first_order", "C06_route_J2000"]
+            "C06_newcomb_vs_fk5", "C06_route_first_order", "C06_route_J2000", "C06_orbital_zero_orientation"]
 PROOF_TIMEOUT = {"quick": 1500, "thorough": 3000}
 EXHAUSTIVE = False
 MANIFEST = {
@@ -44,7 +44,7 @@ CLAUSES = {
     "equatorial route agrees with the ecliptical route through the mean obliquity of each epoch to 1e-4 deg":
         "proved for intervals with ONE END AT J2000 and the other epoch within 5 centuries [spec level, C06_route_J2000: the composed rotation Rx(eps_end) . Recl . Rx(-eps_start) and Requ move every unit vector to places within a chord of 8.5e-7 = 4.9e-5 deg < 1e-4 deg; the nine matrix entries bounded by interval with Taylor models in the one free variable; Requ/Recl/eps are what the generated routines compute by C06_equ/ecl_rotation and C06_obliquity, the conversions being Rx(-/+eps) is property C05]; for general pairs of epochs only the first order is proved [ideal/spec, C06_route_first_order: both routes are the identity at zero interval and their angular velocities there -- Meeus' relations eps' = eta' cos Pi, n = p sin eps + eta' sin Pi cos eps, m = p cos eps - eta' sin Pi sin eps on the three separately coded polynomial sets of the regenerated model -- agree within 0.025 / 0.010 / 0.005 arcsec per century for |T| <= 5 centuries]; the general finite-interval 1e-4 deg bound (both epochs arbitrary within 5 centuries) is unproved (searched, measured maximum 3.35e-5 deg): it needs a certified bound of the angular-velocity mismatch over the two-dimensional (T, t) domain to about 0.005 arcsec/century in quantities of 5000 arcsec/century, and the crude |t| * sup bound (sup = 0.046 arcsec/century at T = -5, t = 10) would give 1.3e-4 deg, above the tolerance",
     "Newcomb within 0.005 deg of FK5 for 1800-2100": "proved [ideal, C06_newcomb_vs_fk5: both epochs in JDE 2378496.5 .. 2488071.5, every declination, chord <= 2.3e-5 = 0.00132 deg < 0.005 deg: sum of the three angle differences (1.6 + 1.7 + 1.4 arcsec, interval on small-coefficient polynomials; outer rotations are isometries, chord <= arc)]; binary64: searched",
-    "orbital elements to another equinox and back": "exact closed forms proved for every inclination, retrograde included, and for the three cases of the zero-inclination branch (eta > 0: i = eta, node = Pi + p + 180; eta < 0: i = -eta, node = Pi + p; eta = 0: input orientation) [ideal, C06_orbital_closed_form, C06_orbital_zero_branch: pin every constant]; the round trip itself unproved (searched).  Reading used by the oracle: the elements return as an ORBIT: inclination, orbit pole (carries sin i * node) and perihelion direction (carries node + argument for small i, node - argument near 180 deg) come back within 1e-9 deg + 3e-9 deg * t^2, t the interval in centuries; the t^2 term is the proved mismatch eta(T+t,-t) + eta(T,t) = -0.00001 t^2 arcsec of the ecliptical polynomials the routine uses (3e-7 deg at 10 centuries, below the text's 1e-6 deg for the ecliptical set); node and argument individually are ill-defined as i -> 0, 180 and are not compared; inclinations 0 .. 179.9999 deg (at exactly 180 deg the node is undefined and the general formulas divide rounding noise by sin(pi) ~ 1e-16: outside the domain), all intervals including zero and sub-day ones; the returned inclination must lie in 0..180.  Exactly i = 0 is treated like every other input (forward, backward and null intervals)",
+    "orbital elements to another equinox and back": "exact closed forms proved for every inclination, retrograde included, and for the three cases of the zero-inclination branch (eta > 0: i = eta, node = Pi + p + 180; eta < 0: i = -eta, node = Pi + p; eta = 0: input orientation) [ideal, C06_orbital_closed_form, C06_orbital_zero_branch: pin every constant]; for i0 = 0 the returned elements are proved to be the right orbit: the frame Rz(node) Rx(i) Rz(arg) equals the ecliptical precession rotation applied to the input frame, forward and backward intervals [C06_orbital_zero_orientation]; the round trip itself unproved (searched).  Reading used by the oracle: the elements return as an ORBIT: inclination, orbit pole (carries sin i * node) and perihelion direction (carries node + argument for small i, node - argument near 180 deg) come back within 1e-9 deg + 3e-9 deg * t^2, t the interval in centuries; the t^2 term is the proved mismatch eta(T+t,-t) + eta(T,t) = -0.00001 t^2 arcsec of the ecliptical polynomials the routine uses (3e-7 deg at 10 centuries, below the text's 1e-6 deg for the ecliptical set); node and argument individually are ill-defined as i -> 0, 180 and are not compared; inclinations 0 .. 179.9999 deg (at exactly 180 deg the node is undefined and the general formulas divide rounding noise by sin(pi) ~ 1e-16: outside the domain), all intervals including zero and sub-day ones; the returned inclination must lie in 0..180.  Exactly i = 0 is treated like every other input (forward, backward and null intervals)",
     "p_motion_equa2eclip, motion_in_space": "exact closed forms proved [ideal, C06_p_motion_closed_form, C06_motion_in_space_closed_form]; searched: finite-difference consistency with the coordinate conversion, zero-time identity, radial motion keeps the direction, vector form r0 + t*v",
     "binary64 rounding of all the above": "unproved (searched with the property's tolerances; correspondence is bit-exact with traced libm)",
 }
